@@ -403,7 +403,11 @@ func (x *Exec) invokeIface(s *State, v *ssa.Call) bool {
 		alts = append(alts, alt{nil})
 	}
 	if len(alts) == 0 {
-		x.unsup("interface %s has no known implementation", recvT)
+		// a sealed interface without implementations has no non-nil values
+		// (the nil check above is the obligation); the path ends here
+		s.assume(tFalse)
+		s.dead = true
+		return false
 	}
 	// fork for all but the last alternative
 	for i, a := range alts {
